@@ -180,6 +180,9 @@ func c11Exec(c *Ctx, cs c11Case) string {
 		wd = filepath.Join(S, cs.Chdir)
 	}
 	os.Chdir(S)
+	// own the working-directory history: a relative location has already been normalised elsewhere
+	prime := spec.Schema{}
+	_ = spec.ExpandSchemaWithBasePath(&prime, nil, &spec.ExpandOptions{RelativeBase: "prime.json", PathLoader: func(string) (json.RawMessage, error) { return json.RawMessage(`{}`), nil }})
 	ref := c11Call(b, cs.Fn, canonical, cs.Skip)
 	os.Chdir(wd)
 	loc := strings.ReplaceAll(cs.Spelling, "<S>", S)
@@ -265,6 +268,9 @@ func c11Spellings(site string, depth int) []c11Spelling {
 		return true
 	}
 	emit(start)
+	if site == "file" {
+		emit(st{head: "", p: "", chdir: "r/s", rw: []string{"empty-base-in-cwd"}})
+	}
 	for d := 0; d < depth; d++ {
 		var next []st
 		for _, s := range frontier {
@@ -378,6 +384,9 @@ func c11Run(c *Ctx) {
 					for _, skip := range []bool{false, true} {
 						if skip && fn != "ExpandSpec" {
 							continue
+						}
+						if s.text == "" && fn != "ExpandSpec" {
+							continue // an empty base only makes sense with an in-memory root
 						}
 						cs := c11Case{Site: site, Spelling: text, Chdir: s.chdir, Rewrites: s.rewrites, Graph: gi, Fn: fn, Skip: skip}
 						o := c11Exec(c, cs)
